@@ -261,6 +261,31 @@ CLAIMED["C12"] = {
     "sets + function contracts discharged by z3",
 }
 
+CLAIMED["C05"] = {
+    "text": "Proof (derived, over the C01/C02/C15 contracts) that after "
+    "nested_sampling_loop the number of returned samples is iterations + "
+    "nlive for a finished run and iterations for a run cut short by the "
+    "cap, their likelihoods ascend, recorded == integrated, the reported "
+    "log-evidence is the trapezoid quadrature of exactly those likelihoods "
+    "with the live-count schedule (nlive,...,nlive, nlive..1) that "
+    "compute_weights assumes (C02 + Lean rec_unique link the two "
+    "computations); birth log-likelihoods are logLs[it] and lie strictly "
+    "below each sample's likelihood; the result dictionary reports the "
+    "sampler's own evidence, samples, insertion indices, birth values and "
+    "information; importance sampler: update_evidence / logZ / "
+    "log_posterior_weights compute logsumexp(logL + logW) - log n and the "
+    "weights normalised by it, the same estimator as the stand-alone "
+    "log_evidence_from_ins_samples.",
+    "note": "NOT decided: that stored logL / logP equal the model "
+    "evaluated at the parameters (relative to C09 / C10 and the user's "
+    "functions); the standard sampler's uncertainty sqrt(info/nlive) is "
+    "reported as the sampler's value, no independent closed form is "
+    "claimed; the INS uncertainty (longdouble exponentials), the INS result "
+    "dictionary wiring and 'number of INS samples = sum of level draws' are "
+    "not under contract; FlowSampler.run_* attribute wiring not under "
+    "contract. Floats as reals.",
+}
+
 NA = {
     "C06": "statistical calibration over seeds: no pre/post-condition on a "
     "function expresses a distributional claim and no deductive back end "
